@@ -348,8 +348,13 @@ func (g *c04Gen) retype(v interface{}) interface{} {
 		return out
 	case map[string]interface{}:
 		out := map[string]interface{}{}
-		for k, x := range t {
-			out[k] = g.retype(x)
+		keys := make([]string, 0, len(t))
+		for k := range t {
+			keys = append(keys, k)
+		}
+		sort.Strings(keys) // the PRNG is consumed in a fixed order: runs replay exactly
+		for _, k := range keys {
+			out[k] = g.retype(t[k])
 		}
 		return out
 	}
